@@ -26,6 +26,14 @@ def stopping_plan(prop, ctx, with_t3=False, with_x=True):
         if with_t3:
             P.append(sweep.universe_shards(prop, "U-T3", j, rewards="all01", stopping_only=True, frac=16, seed=ctx.seed))
     P.append(sweep.family_shards(prop, "U-D", j))
+    P.append(sweep.family_shards(prop, "U-E", j))
+    P.append(sweep.family_shards(prop, "U-L", j))
+    P.append(sweep.family_shards(prop, "U-R", j))
+    P.append(sweep.family_shards(prop, "U-P2", j))
+    if ctx.thorough:
+        P.append(sweep.family_shards(prop, "U-C", j))
+    else:
+        P.append(sweep.family_shards(prop, "U-C", j, stride=4, offset=ctx.seed))
     if with_x:
         P.append(sweep.family_shards(prop, "U-X", j))
     return P
@@ -51,5 +59,12 @@ def all_games_plan(prop, ctx, thresholds=False):
         P.append(sweep.universe_shards(prop, "U-T4r", j, frac=512, seed=ctx.seed))
         P.append(sweep.family_shards(prop, "U-F", j, max_deg=3))
     P.append(sweep.family_shards(prop, "U-D", j))
+    P.append(sweep.family_shards(prop, "U-E", j))
+    P.append(sweep.family_shards(prop, "U-R", j))
+    P.append(sweep.family_shards(prop, "U-P2", j, stride=1 if ctx.thorough else 3, offset=ctx.seed))
+    if ctx.thorough:
+        P.append(sweep.family_shards(prop, "U-C", j))
+    else:
+        P.append(sweep.family_shards(prop, "U-C", j, stride=4, offset=ctx.seed))
     P.append(sweep.family_shards(prop, "U-X", j))
     return P
